@@ -3,14 +3,214 @@
 #include <stdlib.h>
 #include <string.h>
 #include <inttypes.h>
+#include <math.h>
+#include <unistd.h>
 #include "sz.h"
 #include "szimpl.h"
 
+static char cfg_path[512];
+
 void harness_init(void)
 {
+	const char* dir = getenv("SZV_TMP");
+	snprintf(cfg_path, sizeof cfg_path, "%s/szv-%d.config", dir ? dir : "/var/tmp", (int)getpid());
 	SZ_Init(NULL);
 }
 
+/* (re)initialise the library from a configuration given as "key=value;key=value" ("-" = defaults).
+ * The text is written to a real configuration file and loaded through SZ_Init(path). */
+static const char* cfg_defaults[][2] = {
+	{"max_quant_intervals", "65536"}, {"quantization_intervals", "0"}, {"predThreshold", "0.99"}, {"sampleDistance", "100"},
+	{"szMode", "SZ_BEST_COMPRESSION"}, {"losslessCompressor", "ZSTD_COMPRESSOR"}, {"gzipMode", "Gzip_BEST_SPEED"},
+	{"zstdMode", "Zstd_HIGH_SPEED"}, {"protectValueRange", "NO"}, {"errorBoundMode", "ABS"}, {"absErrBound", "1E-4"},
+	{"relBoundRatio", "1E-4"}, {"psnr", "90"}, {"normErr", "0.05"}, {"pw_relBoundRatio", "1E-3"}, {"segment_size", "36"},
+	{"accelerate_pw_rel_compression", "1"}, {"withLinearRegression", "YES"}, {"snapshotCmprStep", "5"}, {"pwr_type", "MIN"},
+	{NULL, NULL}
+};
+
+int init_from_cfg(const char* cfg)
+{
+	SZ_Finalize();
+	if (!strcmp(cfg, "-")) return SZ_Init(NULL);
+	FILE* f = fopen(cfg_path, "w");
+	char* s = strdup(cfg); char* save;
+	char* keys[64]; char* vals[64]; int nk = 0;
+	const char* sol = "SZ"; const char* endian = "LITTLE_ENDIAN_DATA";
+	for (char* t = strtok_r(s, ";", &save); t && nk < 64; t = strtok_r(NULL, ";", &save)) {
+		char* eq = strchr(t, '='); if (!eq) continue; *eq = 0;
+		if (!strcmp(t, "sol_name")) { sol = eq + 1; continue; }
+		if (!strcmp(t, "dataEndianType")) { endian = eq + 1; continue; }
+		keys[nk] = t; vals[nk] = eq + 1; nk++;
+	}
+	fprintf(f, "[ENV]\ndataEndianType = %s\nsol_name = %s\n[PARAMETER]\n", endian, sol);
+	for (int d = 0; cfg_defaults[d][0]; d++) {
+		const char* v = cfg_defaults[d][1];
+		for (int i = 0; i < nk; i++) if (!strcmp(keys[i], cfg_defaults[d][0])) v = vals[i];
+		fprintf(f, "%s = %s\n", cfg_defaults[d][0], v);
+	}
+	for (int i = 0; i < nk; i++) {
+		int known = 0; for (int d = 0; cfg_defaults[d][0]; d++) if (!strcmp(keys[i], cfg_defaults[d][0])) known = 1;
+		if (!known) fprintf(f, "%s = %s\n", keys[i], vals[i]);
+	}
+	free(s); fclose(f);
+	int r = SZ_Init(cfg_path);
+	unlink(cfg_path);
+	if (r != SZ_SCES) { SZ_Finalize(); SZ_Init(NULL); }
+	return r;
+}
+
+static int elem_size(int ty) { switch (ty) { case SZ_FLOAT: return 4; case SZ_DOUBLE: return 8; case SZ_UINT8: case SZ_INT8: return 1; case SZ_UINT16: case SZ_INT16: return 2; case SZ_UINT32: case SZ_INT32: return 4; default: return 8; } }
+static int is_signed(int ty) { return ty == SZ_INT8 || ty == SZ_INT16 || ty == SZ_INT32 || ty == SZ_INT64; }
+
+static uint64_t lcg(uint64_t* s) { *s = *s * 6364136223846793005ULL + 1442695040888963407ULL; return *s >> 11; }
+static double urand(uint64_t* s) { return (double)(lcg(s) & ((1ULL << 52) - 1)) / (double)(1ULL << 52); }
+
+/* data spec:  x:<hex list of bit patterns>   or   g:<kind>:<seed>:<n>:<scale bits>:<offset bits>
+ * kinds: 0 smooth sine, 1 uniform noise, 2 random walk, 3 constant blocks, 4 spiky, 5 alternating two values, 6 constant */
+static void* make_data(const char* spec, int ty, size_t* n_out)
+{
+	int es = elem_size(ty); size_t n; unsigned char* buf;
+	if (spec[0] == 'x') {
+		uint64_t* l; n = parse_list(spec + 2, &l);
+		buf = (unsigned char*)malloc(n * es + 8);
+		for (size_t i = 0; i < n; i++) memcpy(buf + i * es, &l[i], es);   /* little-endian host */
+		free(l);
+	} else {
+		int kind; uint64_t seed, sb, ob; unsigned long nn;
+		sscanf(spec + 2, "%d:%" SCNx64 ":%lx:%" SCNx64 ":%" SCNx64, &kind, &seed, &nn, &sb, &ob);
+		n = nn; double scale, off; memcpy(&scale, &sb, 8); memcpy(&off, &ob, 8);
+		buf = (unsigned char*)malloc(n * es + 8);
+		uint64_t s = seed * 2654435761ULL + 12345; double w = 0;
+		for (size_t i = 0; i < n; i++) {
+			double v;
+			switch (kind) {
+			case 0: v = sin((double)i * 0.05 + (double)(seed % 7)) + 0.3 * sin((double)i * 0.31); break;
+			case 1: v = urand(&s) * 2 - 1; break;
+			case 2: w += (urand(&s) - 0.5) * 0.1; v = w; break;
+			case 3: v = (double)((i / 37) % 5) * 0.25; break;
+			case 4: v = (lcg(&s) % 50 == 0) ? (urand(&s) * 2 - 1) * 100.0 : sin((double)i * 0.02); break;
+			case 5: v = (i & 1) ? 1.0 : 0.0; break;
+			default: v = 1.0; break;
+			}
+			v = v * scale + off;
+			if (ty == SZ_FLOAT) { float f = (float)v; memcpy(buf + i * 4, &f, 4); }
+			else if (ty == SZ_DOUBLE) { memcpy(buf + i * 8, &v, 8); }
+			else {
+				/* integers: clamp to the type's range */
+				double lo, hi; int b = es * 8;
+				if (is_signed(ty)) { lo = -ldexp(1.0, b - 1); hi = ldexp(1.0, b - 1) - 1; } else { lo = 0; hi = ldexp(1.0, b) - 1; }
+				if (v < lo) v = lo; if (v > hi) v = hi;
+				if (is_signed(ty)) { int64_t z = (v >= 9.2233720368547748e18) ? INT64_MAX : (int64_t)v; memcpy(buf + i * es, &z, es); }
+				else { uint64_t z = (v >= 1.8446744073709550e19) ? UINT64_MAX : (uint64_t)v; memcpy(buf + i * es, &z, es); }
+			}
+		}
+	}
+	*n_out = n; return buf;
+}
+
+static void parse_dims(const char* s, size_t r[5])
+{
+	uint64_t* l; size_t n = parse_list(s, &l);
+	for (int i = 0; i < 5; i++) r[i] = (i < (int)n) ? (size_t)l[i] : 0;   /* order r5,r4,r3,r2,r1 */
+	free(l);
+}
+
+static double dbl_of_bits(const char* s) { uint64_t b = hx(s); double d; memcpy(&d, &b, 8); return d; }
+static uint64_t bits_of_dbl(double d) { uint64_t b; memcpy(&b, &d, 8); return b; }
+
+/* error statistics "in the element type's arithmetic" */
+struct errstat { size_t viol; size_t first; double maxerr; size_t outside; };
+
+static double effective_bound(int ty, const void* data, size_t n, int mode, double absb, double rel, double* minv, double* maxv)
+{
+	double mn = 0, mx = 0, range = 0;
+	if (ty == SZ_FLOAT) { const float* d = data; float a = d[0], b = d[0]; for (size_t i = 1; i < n; i++) { if (d[i] < a) a = d[i]; if (d[i] > b) b = d[i]; } mn = a; mx = b; range = (double)(float)(b - a); }
+	else if (ty == SZ_DOUBLE) { const double* d = data; double a = d[0], b = d[0]; for (size_t i = 1; i < n; i++) { if (d[i] < a) a = d[i]; if (d[i] > b) b = d[i]; } mn = a; mx = b; range = b - a; }
+	else {
+		int es = elem_size(ty); long double a = 0, b = 0;
+		for (size_t i = 0; i < n; i++) {
+			long double v;
+			if (is_signed(ty)) { int64_t z = 0; memcpy(&z, (const char*)data + i * es, es); if (es < 8) { int sh = 64 - 8 * es; z = (int64_t)((uint64_t)z << sh) >> sh; } v = z; }
+			else { uint64_t z = 0; memcpy(&z, (const char*)data + i * es, es); v = z; }
+			if (i == 0 || v < a) a = v; if (i == 0 || v > b) b = v;
+		}
+		mn = (double)a; mx = (double)b; range = (double)(b - a);
+	}
+	*minv = mn; *maxv = mx;
+	switch (mode) {
+	case ABS: return absb;
+	case REL: return rel * range;
+	case ABS_AND_REL: return absb < rel * range ? absb : rel * range;
+	case ABS_OR_REL: return absb > rel * range ? absb : rel * range;
+	default: return absb;
+	}
+}
+
+static void err_stats(int ty, const void* ori, const void* dec, size_t n, double e, double mn, double mx, struct errstat* st)
+{
+	st->viol = 0; st->first = (size_t)-1; st->maxerr = 0; st->outside = 0;
+	int es = elem_size(ty);
+	for (size_t i = 0; i < n; i++) {
+		double err; int bad;
+		if (ty == SZ_FLOAT) { float a = ((const float*)ori)[i], b = ((const float*)dec)[i]; float d = fabsf(a - b); err = d; bad = !((double)d <= e); if (b < (float)mn || b > (float)mx) st->outside++; }
+		else if (ty == SZ_DOUBLE) { double a = ((const double*)ori)[i], b = ((const double*)dec)[i]; double d = fabs(a - b); err = d; bad = !(d <= e); if (b < mn || b > mx) st->outside++; }
+		else {
+			long double a, b;
+			if (is_signed(ty)) { int64_t z = 0, y = 0; memcpy(&z, (const char*)ori + i * es, es); memcpy(&y, (const char*)dec + i * es, es); if (es < 8) { int sh = 64 - 8 * es; z = (int64_t)((uint64_t)z << sh) >> sh; y = (int64_t)((uint64_t)y << sh) >> sh; } a = z; b = y; }
+			else { uint64_t z = 0, y = 0; memcpy(&z, (const char*)ori + i * es, es); memcpy(&y, (const char*)dec + i * es, es); a = z; b = y; }
+			long double d = a > b ? a - b : b - a; err = (double)d; bad = !(d <= (long double)e);
+		}
+		if (bad) { if (!st->viol) st->first = i; st->viol++; }
+		if (err > st->maxerr || err != err) st->maxerr = err;
+	}
+}
+
+/* rt / rtr:  <type> <cdims> <ddims> <mode> <abs bits> <rel bits> <pwr bits> <cfg> <data>
+ * compress with cdims, decompress with ddims (both "r5,r4,r3,r2,r1"), report sizes and error statistics;
+ * rtr additionally prints the reconstruction and the stream. */
+static void do_rt(int argc, char** a, int with_recon)
+{
+	int ty = (int)hx(a[0]); size_t cr[5], dr[5]; parse_dims(a[1], cr); parse_dims(a[2], dr);
+	int mode = (int)hx(a[3]); double absb = dbl_of_bits(a[4]), rel = dbl_of_bits(a[5]), pwr = dbl_of_bits(a[6]);
+	if (init_from_cfg(a[7]) != SZ_SCES) { printf("st=init-failed\n"); return; }
+	size_t n; void* data = make_data(a[8], ty, &n);
+	int es = elem_size(ty);
+	void* copy = malloc(n * es + 8); memcpy(copy, data, n * es);
+	size_t outSize = 0;
+	unsigned char* bytes = SZ_compress_args(ty, data, &outSize, mode, absb, rel, pwr, cr[0], cr[1], cr[2], cr[3], cr[4]);
+	int input_modified = memcmp(copy, data, n * es) != 0;
+	if (bytes == NULL) { printf("st=null out=%zx n=%zx\n", outSize, n); free(data); free(copy); return; }
+	size_t dn = computeDataLength(dr[0], dr[1], dr[2], dr[3], dr[4]);
+	void* dec = SZ_decompress(ty, bytes, outSize, dr[0], dr[1], dr[2], dr[3], dr[4]);
+	if (dec == NULL) { printf("st=dec-null out=%zx n=%zx\n", outSize, n); free(bytes); free(data); free(copy); return; }
+	double mn, mx; double e = effective_bound(ty, copy, n, mode, absb, rel, &mn, &mx);
+	struct errstat st; err_stats(ty, copy, dec, n < dn ? n : dn, e, mn, mx, &st);
+	printf("st=ok out=%zx n=%zx dn=%zx viol=%zx first=%zx maxerr=%" PRIx64 " e=%" PRIx64 " outside=%zx inmod=%d",
+	       outSize, n, dn, st.viol, st.first == (size_t)-1 ? 0 : st.first, bits_of_dbl(st.maxerr), bits_of_dbl(e), st.outside, input_modified);
+	if (with_recon) {
+		printf(" recon=");
+		if (n == 0) printf("_");
+		for (size_t i = 0; i < n; i++) { uint64_t v = 0; memcpy(&v, (char*)dec + i * es, es); printf(i ? ",%" PRIx64 : "%" PRIx64, v); }
+		printf(" "); print_bytes("stream", bytes, outSize);
+	}
+	printf("\n");
+	free(bytes); free(dec); free(data); free(copy);
+}
+static void op_rt(int argc, char** a) { do_rt(argc, a, 0); }
+static void op_rtr(int argc, char** a) { do_rt(argc, a, 1); }
+
+/* ---------- C09 ---------- */
+static void op_fdim(int argc, char** a)
+{
+	size_t r[5]; parse_dims(a[0], r);
+	size_t c[5] = {0xdead, 0xdead, 0xdead, 0xdead, 0xdead};
+	int ret = filterDimension(r[0], r[1], r[2], r[3], r[4], c);
+	printf("ret=%x c=%zx,%zx,%zx,%zx,%zx dim=%x len=%zx fdim=%x flen=%zx\n", ret, c[0], c[1], c[2], c[3], c[4],
+	       computeDimension(r[0], r[1], r[2], r[3], r[4]), computeDataLength(r[0], r[1], r[2], r[3], r[4]),
+	       computeDimension(c[4], c[3], c[2], c[1], c[0]), computeDataLength(c[4], c[3], c[2], c[1], c[0]));
+}
+
 struct op more_ops[] = {
+	{"rt", op_rt}, {"rtr", op_rtr}, {"fdim", op_fdim},
 	{NULL, NULL}
 };
